@@ -114,11 +114,15 @@ Theorem C20_default_bodies_fit : forall ver cmd b, default_body ver cmd = Some b
 Proof. exact default_bodies_fit. Qed.
 Print Assumptions C20_default_bodies_fit.
 
-(* NOT repaired, known finding C20/body-over-1023: a custom body that does not fit the 10-bit length
-   field is not refused; the frame generated for 1024 zero bytes is rejected by the decoder (the
-   unmasked length sets the encryption bit and announces length 0).  All other statements are for
-   bodies of at most 1023 bytes. *)
-Theorem C20_refuted_body_over_1023 : decode ex_long_frame = Err E_BODY_LEN.
+(* NOT repaired, known finding C20/body-over-1023: CreateCommandData ([create_command]) does not refuse a
+   body that does not fit the 10-bit length field.  Two WITNESSES (not a statement for every such body):
+   the frames it generates for 1024 bytes - 1024 zero bytes on a 2013 header, 1024 bytes 0xff on a 2019
+   header - are rejected by the decoder (the unmasked length sets the encryption bit and announces
+   length 0).  All other statements are for bodies of at most 1023 bytes. *)
+Theorem C20_refuted_body_over_1023 :
+  length (repeat (0 : N) 1024) = 1024%nat /\
+  decode (snd (create_command (sim0 V2013 [1]) 0x0900 (repeat 0 1024))) = Err E_BODY_LEN /\
+  decode (snd (create_command (sim0 V2019 [1; 3; 8]) 0x0200 (repeat 255 1024))) = Err E_BODY_LEN.
 Proof. exact refuted_body_over_1023. Qed.
 Print Assumptions C20_refuted_body_over_1023.
 
